@@ -420,6 +420,17 @@ def run(repo: Repo, rep: Report, tier: str) -> None:
 
     fi = repo.func(CO, "CompositeConstraint.forward")
     seq_loop(rep, fi, lambda e: attr_chain(e) == "self.constraints", True, "CompositeConstraint applies self.constraints")
+    # the stored list is the caller's sequence: same order, same multiplicity (a constraint object that occurs twice runs twice)
+    cinit = repo.func(CO, "CompositeConstraint.__init__")
+    for st_ in ast.walk(cinit.node):
+        if isinstance(st_, ast.Assign) and any(attr_chain(t_) == "self.constraints" for t_ in st_.targets):
+            vals = [st_.value.body, st_.value.orelse] if isinstance(st_.value, ast.IfExp) else [st_.value]
+            for v_ in vals:
+                txt_ = unparse(v_)
+                good = txt_ in ("constraints", "torch.nn.ModuleList(constraints)", "nn.ModuleList(constraints)", "torch.nn.ModuleList(list(constraints))", "nn.ModuleList(list(constraints))")
+                wrong = any(k_ in txt_ for k_ in ("dict.fromkeys(", "set(", "sorted(", "reversed(", "[::-1]", "unique"))
+                rep.shape(good, wrong, "COMPOSITE-ORDER", cinit, f"self.constraints = {txt_}", "the caller's sequence in its order, every entry kept", "the stored chain is not the caller's sequence: entries are dropped, merged or re-ordered, so the composite differs from applying the given constraints one after the other", node=st_)
+                n += 1
     fi = repo.func(CU, "apply_constraint_chain")
     seq_loop(rep, fi, lambda e: isinstance(e, ast.Name) and e.id == "constraints", False, "apply_constraint_chain applies its list")
     rep.floor("C08 rule instances", n + 2, 40)
